@@ -163,15 +163,7 @@ KF_C13_1(X) ==
   /\ \A i \in DOMAIN X.t.rw :
         X.t.rw[i].exc \in RwAllowed(X, X.t.rw[i]) \cup {"AssertionError", "IndexError"}
 
-\* KF-C12-5: `.balign` between an ASCII literal and the NUL that terminates it
-\* is applied behind the NUL.
-KF_C12_5(V) == AlignMovedPastNul(V)
-
 KfTags(X, clause) ==
-  (IF clause = "C12_Alignment"
-      /\ \A i \in DOMAIN Runs(X) : Runs(X)[i].V.exc = "" => KF_C12_5(Runs(X)[i].V)
-   THEN {"KF-C12-5"} ELSE {})
-  \cup
   (IF clause = "C12_EdgeShape"
       /\ \A i \in DOMAIN Runs(X) : Runs(X)[i].V.exc = "" =>
             (C12_EdgeShape(Runs(X)[i].V) \/ KF_C12_1(Runs(X)[i].V))
